@@ -130,7 +130,7 @@ def kmer_harnesses():
                     funcs=["PartialEq::eq", "Ord::cmp", "PartialOrd::partial_cmp", "lt", "ge"],
                     bounds="all pairs of values"))
         hs.append(H("c11_hash__" + tag, ["C11"], "crate::kmer_ops::hash::<%s>()" % ty,
-                    unwind=max(k, 16) + 3, tier=tier, funcs=["Hash::hash"],
+                    unwind=66, tier=tier, funcs=["Hash::hash"],
                     bounds="all pairs of values; recording Hasher"))
         # heap-backed renderings: small K only (String::push of a symbolic char makes the
         # string length symbolic; cost grows steeply with K)
@@ -338,6 +338,11 @@ def slice_harnesses():
                     cap=900, tier="quick" if n <= 33 else "thorough",
                     funcs=["DnaStringSlice::hamming_dist", "DnaStringSlice::get_kmer", "count_diff_2_bit_packed"],
                     bounds="two fully symbolic strings of %d bases, whole-string slices, both orientations each" % n))
+    for n in (32, 33, 40):
+        hs.append(H("c15_hamming_offsets__len%d" % n, ["C15"], "crate::slice_ops::hamming_offsets::<%d>()" % n, unwind=n + 30,
+                    cap=1200, tier="quick" if n == 33 else "thorough",
+                    funcs=["DnaStringSlice::hamming_dist", "DnaStringSlice::get_kmer", "count_diff_2_bit_packed"],
+                    bounds="two fully symbolic 96-base strings, slice length %d, starts independently in {0,1,32,33}, both orientations each" % n))
     for n in (1023, 1024, 1025, 1056, 2047, 2048, 2049):
         b = (n + 31) // 32
         hs.append(H("c15_hamming_sparse__len%d" % n, ["C15"], "crate::slice_ops::hamming_sparse::<%d, %d>()" % (b, n), unwind=n + 10,
@@ -387,6 +392,11 @@ def ascii_harnesses():
                     stubs=["S1"], tier="quick" if n == 1 else "thorough",
                     funcs=["DnaString::from_acgt_bytes_hashn", "DefaultHasher (SipHash-1-3)"],
                     bounds="all inputs of %d bytes, all read names of %d bytes" % (n, r)))
+    for n, r in ((2, 1), (3, 1)):
+        hs.append(H("c16_hashn_position__n%d_r%d" % (n, r), ["C16"], "crate::ascii_ops::hashn_position::<%d, %d>()" % (n, r), unwind=20, cap=1200,
+                    stubs=["S1"], tier="quick" if n == 2 else "thorough",
+                    funcs=["DnaString::from_acgt_bytes_hashn", "DefaultHasher (SipHash-1-3)"],
+                    bounds="all pairs of %d-byte inputs sharing a non-ACGT byte at a symbolic position, all %d-byte read names" % (n, r)))
     for n in (1, 2):
         hs.append(H("c16_dna_only__n%d" % n, ["C16"], "crate::ascii_ops::dna_only::<%d>()" % n, unwind=12, cap=900,
                     tier="quick" if n == 1 else "thorough",
@@ -471,7 +481,7 @@ def step_harnesses():
         ls = "_".join(str(x) for x in lens)
         arr = "[%s]" % ", ".join(str(x) for x in lens)
         q = nn == 2 and lens in ((3, 4), (4, 5))
-        hs.append(H("c03_find_link__%s__l%s" % (tag, ls), ["C03", "C09"],
+        hs.append(H("c03_find_link__%s__l%s" % (tag, ls), ["C03", "C09", "C06"],
                     "crate::step_ops::find_link::<%s, %d, %d>(%s)" % (ty, nn, L, arr), unwind=max(14, 2 * L + 4), cap=900, mem=20,
                     stubs=["S1", "S2"], tier="quick" if q else "thorough",
                     funcs=["DebruijnGraph::find_link", "DebruijnGraph::search_kmer", "BaseGraph::add", "BaseGraph::finish_serial"],
